@@ -1238,13 +1238,19 @@ def bs_lookback_price(
     m1 = d1(s - m, t, v)  # d' in the paper
     m2 = d2(s - m, t, v)
 
+    # w * d1 = s + w^2 / 2 and w * m1 = (s - m) + w^2 / 2 are written out so that
+    # the products stay finite (not inf * 0) at zero time to maturity or volatility.
+    w = v * t.sqrt()
+    wd1 = s + w.square() / 2
+    wm1 = (s - m) + w.square() / 2
+
     # when max < strike
     price_0 = spot * (
-        ncdf(d1_value) + v * t.sqrt() * (d1_value * ncdf(d1_value) + npdf(d1_value))
+        ncdf(d1_value) + wd1 * ncdf(d1_value) + w * npdf(d1_value)
     ) - strike * ncdf(d2_value)
     # when max >= strike
     price_1 = (
-        spot * (ncdf(m1) + v * t.sqrt() * (m1 * ncdf(m1) + npdf(m1)))
+        spot * (ncdf(m1) + wm1 * ncdf(m1) + w * npdf(m1))
         - strike
         + max * (1 - ncdf(m2))
     )
